@@ -149,6 +149,9 @@ func instrDominates(a, b ssa.Instruction) bool {
 // name is "(T).M" or "(*T).M" as rendered by types.Func.FullName sans package).
 // funcCallName is the name a static call of f is recorded under.
 func funcCallName(f *ssa.Function) string {
+	if a := aliasRecvName(f); a != "" {
+		return strings.ReplaceAll(strings.ReplaceAll(a, modPath+"/", ""), modPath+".", "zlint.")
+	}
 	if f.Object() != nil {
 		if fo, ok := f.Object().(*types.Func); ok {
 			n := strings.ReplaceAll(strings.ReplaceAll(fo.FullName(), modPath+"/", ""), modPath+".", "zlint.")
